@@ -45,14 +45,15 @@ Proof.
   set (s2 := upd s1 tmp (Some new)).
   assert (E2 : s2 path = Some old).
   { unfold s2, s1. cbn [apply]. rewrite !upd_other by congruence. exact H0. }
+  change (match s2 path with Some x => upd (upd s2 path None) bak (Some x) | None => s2 end path = None).
   rewrite E2. rewrite upd_other by congruence. apply upd_same.
 Qed.
 
 Lemma old_refuted path tmp bak old new :
-  tmp <> path -> bak <> path -> old <> new -> True ->
+  tmp <> path -> bak <> path ->
   ~ C36_statement path old new (ops_old path tmp bak new).
 Proof.
-  intros Htp Hbp _ _ S.
+  intros Htp Hbp S.
   specialize (S 5%nat (upd (fun _ => None) path (Some old)) (upd_same _ _ _)).
   cbv zeta in S. rewrite (old_window path tmp bak old new _ Htp Hbp (upd_same _ _ _)) in S.
   destruct S; discriminate.
@@ -60,7 +61,7 @@ Qed.
 
 (* a run killed right after CreateTemp leaves its temp file; the next run picks another fresh
    name (the stale one exists, O_EXCL) and never touches it *)
-Lemma old_litter path tmp tmp' bak old new (d0 : dir) :
+Lemma old_litter path tmp tmp' bak new (d0 : dir) :
   tmp <> path -> tmp <> bak -> tmp <> tmp' ->
   let crashed := run (firstn 1 (ops_old path tmp bak new)) d0 in
   run (ops_old path tmp' bak new) crashed tmp = Some [].
@@ -70,13 +71,13 @@ Proof.
   set (c := apply d0 (Create tmp)).
   assert (Ec : c tmp = Some []) by (unfold c; cbn [apply]; apply upd_same).
   assert (K : forall d o, d tmp = Some [] ->
-              (forall n x, o <> Write tmp x) -> (forall b, o <> Rename tmp b) ->
+              (forall x, o <> Write tmp x) -> (forall b, o <> Rename tmp b) ->
               (forall a, o <> Rename a tmp) -> o <> Remove tmp -> o <> Create tmp ->
               apply d o tmp = Some []).
   { intros d o Hd W R1 R2 Rm Cr. destruct o as [n|n x|n|n|a b|n]; cbn [apply]; try exact Hd.
     - rewrite upd_other; [exact Hd|]. intros E; subst; apply Cr; reflexivity.
     - destruct (d n) eqn:En; [|exact Hd]. rewrite upd_other; [exact Hd|].
-      intros E; subst. apply (W tmp x). reflexivity.
+      intros E; subst. apply (W x). reflexivity.
     - destruct (d a) eqn:Ea; [|exact Hd]. rewrite !upd_other; [exact Hd| |].
       + intros E; subst. apply (R1 b). reflexivity.
       + intros E; subst. apply (R2 a). reflexivity.
@@ -110,10 +111,11 @@ Section Fixed.
     assert (E2 : s2 tmp = Some new) by apply upd_same.
     assert (W : apply s1 (Write tmp new) = s2) by (rewrite (apply_write_some _ _ _ _ E1); reflexivity).
     assert (R : apply s2 (Rename tmp path) = s5) by (rewrite (apply_rename_some _ _ _ _ E2); reflexivity).
-    do 5 (destruct k as [|k]; [cbn [ops ops_fixed firstn run fold_left]; cbn [apply]; fold s1;
-                               rewrite ?W; cbn [apply]; rewrite ?R; reflexivity|]).
-    destruct k; cbn [ops ops_fixed firstn run fold_left]; cbn [apply]; fold s1; rewrite W; cbn [apply];
-      rewrite R; reflexivity.
+    assert (C1 : apply d0 (Create tmp) = s1) by reflexivity.
+    assert (C3 : apply s2 (Close tmp) = s2) by reflexivity.
+    assert (C4 : apply s2 (Chmod tmp) = s2) by reflexivity.
+    do 5 (destruct k as [|k]; [cbn [ops ops_fixed firstn run fold_left]; rewrite ?C1, ?W, ?C3, ?C4, ?R; reflexivity|]).
+    destruct k; cbn [ops ops_fixed firstn run fold_left]; rewrite ?C1, ?W, ?C3, ?C4, ?R; reflexivity.
   Qed.
 
   Lemma A_d0 : InvA d0. Proof. split; auto. Qed.
@@ -161,3 +163,87 @@ Section Fixed.
   Proof. intros C. destruct (crash_inv d C) as [[H _] | [[H _] _]]; auto. Qed.
 
 End Fixed.
+
+(* ------------------------------------------------------------------ closed forms *)
+
+Lemma fixed_crash_safe mid : atomic_fs mid ->
+  forall path tmp old new d0, tmp <> path -> d0 path = Some old ->
+  forall d, crash_state mid (ops_fixed path tmp new) d0 d -> d path = Some old \/ d path = Some new.
+Proof. intros Hm path tmp old new d0 Htp H0 d C. exact (crash_safe path tmp old new d0 Htp H0 mid Hm d C). Qed.
+
+Lemma fixed_statement path tmp old new : tmp <> path -> C36_statement path old new (ops_fixed path tmp new).
+Proof.
+  intros Htp k d0 H0. cbv zeta.
+  destruct (between_inv path tmp old new d0 Htp H0 k) as [[H _] | [[H _] _]]; auto.
+Qed.
+
+(* a complete rewrite from any directory in which the target exists *)
+Lemma fixed_full_run path tmp c new (d : dir) : tmp <> path -> d path = Some c ->
+  let d' := run (ops_fixed path tmp new) d in
+  d' path = Some new /\ d' tmp = None /\ forall n, n <> path -> n <> tmp -> d' n = d n.
+Proof.
+  intros Htp H0. cbv zeta.
+  pose proof (fixed_states path tmp new d 5%nat) as E. cbv zeta in E.
+  change (firstn 5 (ops_fixed path tmp new)) with (ops_fixed path tmp new) in E. rewrite E.
+  destruct (B_s5 path tmp new d Htp) as [[P O] T]. cbn match. auto.
+Qed.
+
+Lemma fixed_no_litter path tmp old new (d0 : dir) :
+  tmp <> path -> d0 path = Some old -> d0 tmp = None ->
+  let d' := run (ops_fixed path tmp new) d0 in d' path = Some new /\ same_except path d' d0.
+Proof.
+  intros Htp H0 Ht. cbv zeta.
+  destruct (fixed_full_run path tmp old new d0 Htp H0) as (P & T & O). split; [exact P|].
+  intros n Hn. destruct (N.eq_dec n tmp) as [->|Hnt]; [congruence|auto].
+Qed.
+
+Lemma crash_state_nil mid d0 d : crash_state mid [] d0 d -> d = d0.
+Proof.
+  intros C. destruct C as [k | k o d' Hn _].
+  - destruct k; reflexivity.
+  - destruct k; discriminate.
+Qed.
+
+Lemma later_run_clean mid : atomic_fs mid ->
+  forall (fmt : content -> content) path tmp old (d0 : dir),
+  tmp <> path -> d0 path = Some old -> d0 tmp = None ->
+  forall ops1, lint_ops (ops_fixed path tmp) fmt path d0 = Some ops1 ->
+  forall d, crash_state mid ops1 d0 d ->
+    (d path = Some old \/ d path = Some (fmt old)) /\
+    exists ops2, lint_ops (ops_fixed path tmp) fmt path d = Some ops2 /\
+      let d' := run ops2 d in
+      same_except path d' d0 /\ (d' path = Some (fmt old) \/ d' path = Some (fmt (fmt old))).
+Proof.
+  intros Hm fmt path tmp old d0 Htp H0 Ht ops1 L1 d C.
+  unfold lint_ops in L1. rewrite H0 in L1.
+  destruct (str_eqb (fmt old) old) eqn:Eq.
+  - (* nothing to rewrite: no operation, no crash state but d0 *)
+    inversion L1; subst ops1. apply crash_state_nil in C. subst d.
+    apply str_eqb_eq in Eq. split; [auto|].
+    exists []. split.
+    + unfold lint_ops. rewrite H0. rewrite Eq. rewrite (proj2 (str_eqb_eq old old) eq_refl). reflexivity.
+    + cbv zeta. cbn [run fold_left]. split; [intros n _; reflexivity|]. left. congruence.
+  - inversion L1; subst ops1.
+    destruct (crash_inv path tmp old (fmt old) d0 Htp H0 mid Hm d C) as [[P O] | [[P O] T]].
+    + (* target still old: the later run rewrites again, reusing (truncating) the temp name *)
+      split; [auto|].
+      exists (ops_fixed path tmp (fmt old)). split.
+      * unfold lint_ops. rewrite P, Eq. reflexivity.
+      * cbv zeta. destruct (fixed_full_run path tmp old (fmt old) d Htp P) as (P' & T' & O').
+        split; [|auto]. intros n Hn. destruct (N.eq_dec n tmp) as [->|Hnt]; [congruence|].
+        rewrite O' by assumption. auto.
+    + (* target already new, temp name gone *)
+      split; [auto|].
+      assert (SE : same_except path d d0).
+      { intros n Hn. destruct (N.eq_dec n tmp) as [->|Hnt]; [congruence|auto]. }
+      unfold lint_ops. rewrite P.
+      destruct (str_eqb (fmt (fmt old)) (fmt old)) eqn:Eq2.
+      * exists []. split; [reflexivity|]. cbv zeta. cbn [run fold_left]. auto.
+      * exists (ops_fixed path tmp (fmt (fmt old))). split; [reflexivity|]. cbv zeta.
+        destruct (fixed_full_run path tmp (fmt old) (fmt (fmt old)) d Htp P) as (P' & T' & O').
+        split; [|auto]. intros n Hn. destruct (N.eq_dec n tmp) as [->|Hnt]; [congruence|].
+        rewrite O' by assumption. auto.
+Qed.
+
+Lemma mid_posix_atomic : atomic_fs mid_posix.
+Proof. intros d o d' H. exact H. Qed.
